@@ -18,6 +18,7 @@ Clauses(e) ==
           <<"lengths", e.raised \/ (e.len_c = e.L + 1 /\ e.len_x = 2 * e.L + 1)>>,
           <<"lags-symmetric-range", e.raised \/ (e.lag_first = -e.L /\ e.lag_last = e.L)>>,
           <<"same-at-nonnegative-lags", e.raised \/ Small(e.pos_dev, Tol)>>,
+          <<"equals-the-lag-sum-definition", e.raised \/ ~Has(e, "def_dev") \/ Small(e.def_dev, Tol)>>,
           <<"conjugate-at-negative-lags", e.raised \/ Small(e.neg_dev, Tol)>>,
           <<"coeff-is-one-at-lag-zero", e.raised \/ e.zero_lag_unit>> }
     ELSE IF e.ev = "cross" THEN
